@@ -90,6 +90,16 @@ type Out struct {
 	Observed   [][]string `json:"observed,omitempty"`
 	Note       string     `json:"note,omitempty"`
 	Seen       []string   `json:"seen,omitempty"` // every observation class seen at least once
+	Events     []Event    `json:"events,omitempty"`
+}
+
+// Event is one line of the trace validated by TLC (spec/PrivacyTrace.tla).
+type Event struct {
+	L       Label    `json:"l"`
+	Obs     []string `json:"obs"`
+	Conf    Conf     `json:"conf"` // read back from the torrent (GetConf)
+	Proxy   bool     `json:"proxy"`
+	Started bool     `json:"started"`
 }
 
 type world struct {
@@ -517,6 +527,7 @@ func runCase(c *Case, out *Out) {
 		return true
 	}
 
+	out.Events = append(out.Events, Event{L: Label{A: "reset", C: &Conf{}}, Obs: []string{}, Conf: c.Init.Conf, Proxy: c.Init.Proxy})
 	for k, st := range c.Steps {
 		desc := fmt.Sprintf("step %d %s", k, st.A.L.A)
 		post := st.S
@@ -698,6 +709,24 @@ func runCase(c *Case, out *Out) {
 		}
 		sort.Strings(obs)
 		out.Observed = append(out.Observed, obs)
+		// the configuration as the torrent itself reports it
+		rc, cerr := t.GetConf()
+		if cerr != nil {
+			out.Note = desc + ": GetConf: " + cerr.Error()
+			return
+		}
+		tobs := []string{}
+		for _, o := range obs {
+			if o != "peer:handshake" && o != "peer:ext0" && o != "http:version" {
+				tobs = append(tobs, o)
+			}
+		}
+		lab := st.A.L
+		if lab.C == nil {
+			lab.C = &Conf{}
+		}
+		out.Events = append(out.Events, Event{L: lab, Obs: tobs, Conf: Conf{Trk: rc.UseTrackers, Ws: rc.UseWebseeds, Dht: rc.DhtMode.String()},
+			Proxy: c.Init.Proxy, Started: true})
 		for o := range expect {
 			if !gs[o] {
 				out.Nonconf = append(out.Nonconf, fmt.Sprintf("%s: the model expects %s, not observed (observed %v)", desc, o, obs))
